@@ -5,3 +5,4 @@ pub mod refnq;
 pub mod refrdfc;
 pub mod refsparql;
 pub mod terms;
+pub mod xmlwf;
